@@ -491,6 +491,20 @@ func (p patReader) Read(b []byte) (int, error) {
 	return len(b), nil
 }
 
+// shortReader is a stateless source that delivers fewer bytes than a draw asks for
+type shortReader int
+
+func (n shortReader) Read(b []byte) (int, error) {
+	k := int(n)
+	if k > len(b) {
+		k = len(b)
+	}
+	for i := 0; i < k; i++ {
+		b[i] = byte(0xa0 + i)
+	}
+	return k, io.EOF
+}
+
 // ctrReader is a source with its own, properly synchronised state: every read is distinct
 type ctrReader struct{ n *atomic.Uint64 }
 
@@ -550,6 +564,22 @@ func compositeChecks(c *ctx, impls map[string]*hg.Impl, rng *vh.Rng) {
 			obj(9, fmt.Sprintf("random.New(%d sources):XORKeyStream(%d)", n, l), []interface{}{st}, func() string {
 				out := make([]byte, l)
 				st.XORKeyStream(out, buf)
+				return string(out)
+			})
+		}
+		// the same with short / empty sources mixed in (a draw tolerates them as long as one is good)
+		for _, mix := range [][]io.Reader{
+			{patReader(1), shortReader(5)}, {shortReader(5), patReader(1)}, {patReader(1), shortReader(0)},
+			{shortReader(31), patReader(2), shortReader(0)}, {patReader(1), patReader(2), shortReader(7)},
+		} {
+			if len(mix) != n+1 {
+				continue
+			}
+			mix := mix
+			st := random.New(mix...)
+			obj(9, fmt.Sprintf("random.New(%d sources, some short):XORKeyStream", len(mix)), []interface{}{st, &mix}, func() string {
+				out := make([]byte, 20)
+				st.XORKeyStream(out, make([]byte, 20))
 				return string(out)
 			})
 		}
